@@ -73,6 +73,9 @@ M = [
  ('c13_split_without_topup', 'C13', 'nautilus/bounds/union.py',
   "            n_move = self.n_points_min - (len(labels) - len(other))\n",
   "            n_move = self.n_points_min - (len(labels) - len(other)) - 1\n"),
+ ('c12_resume_assumes_unit_cube_first', 'C12 C05 C02', 'nautilus/sampler.py',
+  "                    if group_bound.attrs['type'] == 'UnitCube':\n",
+  "                    if i == 0:\n"),
  ('c15_isf_direction', 'C15', 'nautilus/prior.py',
   "                phys_points[..., i] = dist.isf(1 - points[..., i])\n",
   "                phys_points[..., i] = dist.isf(points[..., i])\n"),
